@@ -167,6 +167,15 @@ def gen(rng, tier):
         for i in range(nenv):
             if envs["e%d" % i]["imports"] or rng.chance(1, 4):
                 cases.append(G.case_from_graph(envs, "e%d" % i))
+    # the SPELLING of a merged import: the plain name, the object form without a merge key (`- b: {}`) and the explicit
+    # `merge: true` are the same import (seeded change C01-k: the object form without the key was read as merge: false)
+    def respell(d, k):
+        forms = ["empty", "explicit", True]
+        return {"imports": [(n, forms[(k + i) % 3] if m is True else m) for i, (n, m) in enumerate(d["imports"])], "values": d["values"]}
+    for j, c in enumerate(cases):
+        if j % 5 == 2:
+            c["def"] = respell(c["def"], j)
+            c["envs"] = {n: (dict(e, **{"def": respell(e["def"], j + 1)}) if e.get("kind") == "def" else e) for n, e in c["envs"].items()}
     # the fold is the same while CHECKING (these worlds have no providers and no ciphertexts, so nothing is unknown): every
     # fourth case runs in check mode, with or without showSecrets
     for j, c in enumerate(cases):
